@@ -300,7 +300,7 @@ pub fn check_durable_image(env: &Env, model: &Model, check_counters: bool) -> Re
 }
 
 /// Extents still to be written (records without a sector), as block counts.
-fn unflushed_extents(env: &Env) -> Vec<(Vec<u8>, u64)> {
+pub fn unflushed_extents(env: &Env) -> Vec<(Vec<u8>, u64)> {
     let store = env.st();
     let version = store.verif_format_version();
     store
@@ -316,32 +316,66 @@ fn unflushed_extents(env: &Env) -> Vec<(Vec<u8>, u64)> {
 
 /// Could the buffered records fail to fit into the current free runs (best fit, no help from
 /// retirements)? Conservative: `true` means a clean close may legitimately lose them.
+/// The batch is allocated in buffer order, which the harness does not see, and best fit can
+/// fragment the free runs for one order and not for another: few extents are tried in every
+/// order, many are judged by the order-independent bound (everything fits into the largest run).
 pub fn capacity_risk(env: &Env) -> bool {
     if !env.cfg.persistent {
         return false;
     }
-    let mut runs: Vec<(u64, u64)> = env.st().verif_space().runs_by_start;
+    let runs: Vec<(u64, u64)> = env.st().verif_space().runs_by_start;
     let mut need: Vec<u64> = unflushed_extents(env).into_iter().map(|(_, b)| b).collect();
-    // every overwrite needs its new extent before the old one is released: be pessimistic
-    need.sort_unstable_by(|a, b| b.cmp(a));
-    for blocks in need {
-        let Some(pos) = runs
-            .iter()
-            .enumerate()
-            .filter(|(_, (_, size))| *size >= blocks)
-            .min_by_key(|(_, (start, size))| (*size, *start))
-            .map(|(i, _)| i)
-        else {
-            return true;
-        };
-        let (start, size) = runs[pos];
-        if size == blocks {
-            runs.remove(pos);
-        } else {
-            runs[pos] = (start + blocks, size - blocks);
-        }
+    if need.is_empty() {
+        return false;
     }
-    false
+    let total: u64 = need.iter().sum();
+    let largest = runs.iter().map(|(_, s)| *s).max().unwrap_or(0);
+    if total <= largest {
+        return false;
+    }
+    if need.len() > 7 {
+        return true;
+    }
+    fn fits(order: &[u64], runs: &[(u64, u64)]) -> bool {
+        let mut runs = runs.to_vec();
+        for blocks in order {
+            let Some(pos) = runs
+                .iter()
+                .enumerate()
+                .filter(|(_, (_, size))| size >= blocks)
+                .min_by_key(|(_, (start, size))| (*size, *start))
+                .map(|(i, _)| i)
+            else {
+                return false;
+            };
+            let (start, size) = runs[pos];
+            if size == *blocks {
+                runs.remove(pos);
+            } else {
+                runs[pos] = (start + blocks, size - blocks);
+            }
+        }
+        true
+    }
+    // Heap's algorithm over the (at most 7) extents
+    fn any_order_fails(k: usize, need: &mut Vec<u64>, runs: &[(u64, u64)]) -> bool {
+        if k <= 1 {
+            return !fits(need, runs);
+        }
+        for i in 0..k {
+            if any_order_fails(k - 1, need, runs) {
+                return true;
+            }
+            if k % 2 == 0 {
+                need.swap(i, k - 1);
+            } else {
+                need.swap(0, k - 1);
+            }
+        }
+        false
+    }
+    let n = need.len();
+    any_order_fails(n, &mut need, &runs)
 }
 
 /// C05: flush may answer OutOfSpace only when some buffered extent is longer than the
